@@ -360,3 +360,113 @@ Proof.
       { apply existsb_exists. exists x. split; auto. rewrite Ex. apply String.eqb_refl. }
       congruence.
 Qed.
+
+Definition species_resolves (t : stree) (sp : species) (p : taxon) : Prop :=
+  search t (sp_name sp) = [p] /\ is_leaf t p = true.
+
+Lemma species_fold_spec t sps : forall acc s acc' s',
+  foldM (fun acc sp => load_species t sp acc) sps acc s = Ok (acc', s') ->
+  map fst acc' = map fst acc ++ flat_map (fun sp => map gd_id (sp_genes sp)) sps /\
+  (NoDup (map fst acc) -> NoDup (map fst acc')) /\
+  (forall sp, In sp sps -> exists p, species_resolves t sp p) /\
+  (forall g p, In (g, p) acc' -> In (g, p) acc \/
+     exists sp, In sp sps /\ In g (map gd_id (sp_genes sp)) /\ species_resolves t sp p).
+Proof.
+  induction sps as [|sp r IH]; intros acc s acc' s' H.
+  - apply ret_ok in H as [<- _]. simpl. rewrite app_nil_r. repeat split; auto. intros sp [].
+  - cbn [foldM] in H. inv_bind_as H acc1 t1 E1 K1.
+    apply load_species_spec in E1 as (p & Hs & Hl & Hg & Hn).
+    destruct (IH _ _ _ _ K1) as (I1 & I2 & I3 & I4). split; [|split; [|split]].
+    + rewrite I1, Hg, map_app, map_map. simpl. rewrite <- app_assoc. reflexivity.
+    + intros Hnd. apply I2. apply Hn. exact Hnd.
+    + intros sp' [<-|Hin]; [exists p; split; auto|apply I3; auto].
+    + intros g q Hin. apply I4 in Hin as [Hin|(sp' & Hsp & Hg' & Hr)].
+      * rewrite Hg in Hin. apply in_app_or in Hin as [Hin|Hin]; [left; exact Hin|].
+        right. exists sp. split; [left; reflexivity|]. apply in_map_iff in Hin as (gd & Egd & Hgd).
+        inversion Egd; subst. split; [apply in_map; exact Hgd|split; auto].
+      * right. exists sp'. split; [right; exact Hsp|auto].
+Qed.
+
+Definition top_ok (genes : list (string * taxon)) (it : item) (top : option string * hog) : Prop :=
+  exists id og body, it = IOG id og body /\
+    fst top = (match id with Some x => Some x | None => og end) /\
+    Permutation (genes_of (snd top)) (refs_of it) /\
+    (forall g, In g (refs_of it) -> In g (map fst genes)) /\ item_ok it.
+
+Theorem load_spec t d l :
+  load t d = Ok l ->
+  map fst (l_genes l) = declared d /\ NoDup (declared d) /\
+  (forall sp, In sp (d_species d) -> exists p, species_resolves t sp p) /\
+  (forall g p, In (g, p) (l_genes l) ->
+     exists sp, In sp (d_species d) /\ In g (map gd_id (sp_genes sp)) /\ species_resolves t sp p) /\
+  Forall2 (top_ok (l_genes l)) (d_groups d) (l_tops l).
+Proof.
+  unfold load. intros H.
+  match type of H with context [match ?m init_state with _ => _ end] => destruct (m init_state) as [[[genes tops] s]|e] eqn:Em end; [|discriminate].
+  inversion H; subst. clear H. cbn [l_genes l_tops].
+  inv_bind_as Em genes0 t1 E1 K1. inv_bind_as K1 tops0 t2 E2 K2. apply ret_ok in K2 as [E _]. inversion E; subst.
+  destruct (species_fold_spec t _ _ _ _ _ E1) as (I1 & I2 & I3 & I4). simpl in I1.
+  split; [exact I1|]. split; [unfold declared; rewrite <- I1; apply I2; constructor|]. split; [exact I3|]. split.
+  - intros g p Hin. apply I4 in Hin as [[]|Hin]. exact Hin.
+  - eapply mapM_Forall2; [|exact E2]. intros x s0 [i h] s0' Hx. apply eval_top_spec in Hx. exact Hx.
+Qed.
+
+(* ---------- corollaries used by C01 / C20 ---------- *)
+Lemma tops_genes_perm genes groups tops :
+  Forall2 (top_ok genes) groups tops ->
+  Permutation (flat_map (fun top => genes_of (snd top)) tops) (flat_map refs_of groups).
+Proof.
+  induction 1 as [|it top gs ts Hok HF IH]; simpl; [constructor|].
+  destruct Hok as (id & og & body & _ & _ & Hp & _). apply Permutation_app; auto.
+Qed.
+
+Theorem families_disjoint t d l :
+  load t d = Ok l -> NoDup (flat_map refs_of (d_groups d)) ->
+  NoDup (flat_map (fun top => genes_of (snd top)) (l_tops l)).
+Proof.
+  intros H Hn. apply load_spec in H as (_ & _ & _ & _ & HF).
+  eapply Permutation_NoDup; [apply Permutation_sym; eapply tops_genes_perm; eauto|exact Hn].
+Qed.
+
+Theorem singles_spec l g p :
+  In (HGene g p) (singles_of l) <->
+  In (g, p) (l_genes l) /\ ~ In g (flat_map (fun top => genes_of (snd top)) (l_tops l)).
+Proof.
+  unfold singles_of. rewrite in_map_iff. split.
+  - intros ([g' p'] & E & Hin). inversion E; subst. apply filter_In in Hin as [Hin Hb]. split; auto.
+    apply negb_true_iff in Hb. intros Hu. simpl in Hb.
+    assert (existsb (String.eqb g) (flat_map (fun top => genes_of (snd top)) (l_tops l)) = true).
+    { apply existsb_exists. exists g. split; auto. apply String.eqb_refl. }
+    congruence.
+  - intros [Hin Hn]. exists (g, p). split; auto. apply filter_In. split; auto. apply negb_true_iff. simpl.
+    destruct (existsb _ _) eqn:E; auto. apply existsb_exists in E as (x & Hx & Ex). apply String.eqb_eq in Ex. subst. contradiction.
+Qed.
+
+Theorem refs_declared t d l :
+  load t d = Ok l -> forall g, In g (flat_map refs_of (d_groups d)) -> In g (declared d).
+Proof.
+  intros H g Hg. apply load_spec in H as (E & _ & _ & _ & HF). rewrite <- E.
+  clear E. induction HF as [|it top gs ts Hok HF IH]; [contradiction|]. simpl in Hg.
+  apply in_app_or in Hg as [Hg|Hg]; auto. destruct Hok as (id & og & body & _ & _ & _ & Hd & _). auto.
+Qed.
+
+Theorem groups_ok t d l : load t d = Ok l -> Forall item_ok (d_groups d).
+Proof.
+  intros H. apply load_spec in H as (_ & _ & _ & _ & HF).
+  induction HF as [|it top gs ts Hok HF IH]; constructor; auto.
+  destruct Hok as (id & og & body & _ & _ & _ & _ & Hok). exact Hok.
+Qed.
+
+(* a fault anywhere makes the load fail: contrapositives of the above, for the record *)
+Theorem fault_rejected t d :
+  (exists sp, In sp (d_species d) /\ forall p, ~ species_resolves t sp p) \/
+  (exists g, In g (flat_map refs_of (d_groups d)) /\ ~ In g (declared d)) \/
+  ~ Forall item_ok (d_groups d) ->
+  exists e, load t d = Err e.
+Proof.
+  intros Hf. destruct (load t d) as [l|e] eqn:E; [|eauto]. exfalso.
+  destruct Hf as [(sp & Hsp & Hn)|[(g & Hg & Hn)|Hn]].
+  - apply load_spec in E as (_ & _ & Hs & _). destruct (Hs sp Hsp) as [p Hp]. eapply Hn; eauto.
+  - apply Hn. eapply refs_declared; eauto.
+  - apply Hn. eapply groups_ok; eauto.
+Qed.
